@@ -39,6 +39,8 @@ fn nest(ops: &[AbsOp], pos: &mut usize, m: &AbsModule) -> Option<(Vec<Json>, Str
             }
             "I32Const" => json!({"o": name, "v": imm_val(&o.imm, "value")?.rem_euclid(32768)}),
             "Nop" | "Drop" | "Select" | "I32Eqz" | "Return" | "Unreachable" => json!({"o": name}),
+            // (the typed form of select: the operands are i32 here, see the signature filter)
+            "TypedSelect" if o.imm.contains("i32") || o.imm.contains("I32") => json!({"o": "Select"}),
             n if BIN.contains(&n) => json!({"o": name}),
             "LocalGet" | "LocalSet" | "LocalTee" => json!({"o": name, "i": o.local}),
             "GlobalGet" | "GlobalSet" => json!({"o": name, "i": o.refs.first()?.1}),
